@@ -72,7 +72,7 @@ def parseEnv (s : String) : Option (List (String × Int)) :=
     | _ => none
 
 def excStr : CffiVerif.ConstErr.Exc → String
-  | .cdefError => "CDefError" | .ffiError => "FFIError" | .valueError => "ValueError"
+  | .cdefError => "CDefError" | .ffiError => "FFIError"
   | .overflowError => "OverflowError" | .indexError => "IndexError"
 
 /-- `shlLimit` of the driver: the harness only sends counts ≤ 10^4 or ≥ 2^63·30. -/
